@@ -1004,3 +1004,47 @@ Definition ok_plt_entry (vaddr0 : Z) (truth : list (str * Z)) (s : sym) : bool :
 Definition ok_plt_table (vaddr0 : Z) (truth : list (str * Z)) (tab : symtab) : bool :=
   forallb (ok_plt_entry vaddr0 truth) tab &&
   forallb (fun p => existsb (fun s => (s_type s =? K_ST_PLT_FUNC) && str_eqb (s_name s) (fst p)) tab) truth.
+
+(* ------------------------------------------------------------------ module of an address *)
+(* what replay -f +module shows for a record: the map of the session in force that holds the
+   address (find_task_session + find_map); "K" stands for the kernel pseudo map *)
+Definition resolve_map (lk : link) (tid time a : Z) : option str :=
+  match find_task (tasks lk) tid with
+  | None => None
+  | Some t =>
+      match find_task_session lk t time with
+      | None => None
+      | Some s => match find_map (se_info s) a with
+                  | MapAt m => Some (m_name m)
+                  | MapKernel => Some [75]
+                  | MapNone => None
+                  end
+      end
+  end.
+
+Fixpoint gt_modname (ms : list (Z * Z * str)) (a : Z) : option str :=
+  match ms with
+  | [] => None
+  | (s, e, n) :: r => if (s <=? a) && (a <? e) then Some n else gt_modname r a
+  end.
+Definition ok_module (gm : list (list (Z * Z * str))) (tl : list (Z * list (Z * nat))) (tid t a : Z) (ans : option str) : bool :=
+  match assoc_tl tl tid with
+  | None => true
+  | Some l =>
+      match in_force l t None with
+      | None => true
+      | Some i =>
+          match nth_error gm i with
+          | None => true
+          | Some ms =>
+              match ans with
+              | Some (75 :: nil) => true                      (* kernel address: no verdict *)
+              | _ => match gt_modname ms a, ans with
+                     | Some n, Some m => str_eqb n m
+                     | None, None => true
+                     | _, _ => false
+                     end
+              end
+          end
+      end
+  end.
